@@ -619,8 +619,13 @@ def _iter_segments(
                             raise NotImplementedError(  # pragma: no cover
                                 "Found literal whitespace with stashed idx!"
                             )
+                        # NOTE: Measure from where we've consumed up to, not
+                        # from the start of the element (part of which may
+                        # already have been consumed by earlier slices).
                         incremental_length = (
-                            tfs.templated_slice.stop - element.template_slice.start
+                            tfs.templated_slice.stop
+                            - element.template_slice.start
+                            - consumed_element_length
                         )
                         yield element.to_segment(
                             pos_marker=PositionMarker(
